@@ -15,7 +15,10 @@ RULE = ('cases = public calls reaching a JIT kernel (P-spline family, loess, cor
         'fastchrom, beads, interp helper) and direct kernel calls, run with the kernels\' Python source substituted so that an '
         'out-of-range scalar index raises; sizes from the minimum accepted upward, extreme legal window/section/knot/degree/'
         'fraction/delta values; plus index-trace comparisons of _find_interval/_de_boor/_numba_btb_bty/_determine_fits with the Lean '
-        'models; non-trivial = the call reached a kernel; distinct by canonical tuple')
+        'models; index/slice traces of _numba_banded_dot_banded, _quadratic_bezier_spline, _interp_inplace, _fill_skips, _loess_solver '
+        'and the loess loops vs the Lean index models, and a pre-monitor checking the arguments of every kernel call made by beads, '
+        'corner_cutting, loess, peak_filling, std_distribution, fastchrom, pspline_asls against the caller lemmas (c05k.py); '
+        'non-trivial = the call reached a kernel; distinct by canonical tuple')
 ASSUMPTIONS = [
     'Numba compiles the kernels\' Python source faithfully (index semantics: slices clip, scalar indices in [-n, n) wrap)',
     'an IndexError raised inside a kernel frame of the Python source == an out-of-bounds access of the compiled kernel',
@@ -123,6 +126,8 @@ def correspond(ctx):
                 dis.append(Disagreement('c05.oob', sig, detail, {'kind': 'call', 'canon': [c if not isinstance(c, (np.integer, np.floating)) else float(c) for c in canon],
                                                                  'kernel': res[1]}, True))
     dis += kernel_level(ctx, rng, names)
+    from . import c05k
+    dis += c05k.correspond_more(ctx, rng, names)
     return dis
 
 
